@@ -19,7 +19,7 @@ RULE = ('case = generated class with 1-3 cached methods (0-3 positional-or-keywo
         'distinct = hash(signatures, call sequence)')
 REQUIRED = ['calls', 'respelled_hits', 'different_binding_misses', 'ignored_arg_hits', 'force_calls', 'only_cache_calls',
             'store_value_calls', 'kwonly_default_spellings', 'own_cache_entry_counts', 'json_cache_classes', 'version_isolation_checks',
-            'falsy_store_values', 'respelled_hits_with_reordered_mappings']
+            'falsy_store_values', 'respelled_hits_with_reordered_mappings', 'classes_with_one_decorator_object_for_several_methods']
 ASSUMPTIONS = ['positional-only parameters, *args/**kwargs, custom key functions and methods sharing one external cache object are out of scope',
                'argument values are drawn from a pool that is pairwise distinct as JSON text (it contains values that Python considers equal: 1 / 1.0 / True, 0 / 0.0 / False)']
 BUDGET = {'quick': 40, 'thorough': 900}
@@ -75,7 +75,9 @@ def method_source(m):
             parts.append('*')
             kw_started = True
         parts.append(p['name'] + (f'={p["default"]!r}' if p['has_default'] else ''))
-    if m['bare']:
+    if m.get('shared_deco'):
+        deco = '@_memo'            # one decorator object applied to several methods of the class
+    elif m['bare']:
         deco = '@cached'
     else:
         args = []
@@ -159,9 +161,18 @@ def run_class(rng, res: CaseResult, cache_kind):
         execs.append((name, json.dumps(b, sort_keys=True)))
         return [name, len(execs), 'uniq']
 
-    src = 'class K:\n    def __init__(self, cache):\n        self.cache = cache\n' + ''.join(method_source(m) for m in methods)
+    shared_line = ''
+    if len(methods) >= 2 and rng.random() < 0.35:
+        # `memo = cached(...)` written once and applied to several methods: same version and ignore list for all of them (names that every method has)
+        common_ignore = [n for n in methods[0]['ignore'] if all(any(p['name'] == n for p in m['params']) for m in methods)]
+        ver = methods[0]['version']
+        a_ = ([f'ignore_kwargs={common_ignore!r}'] if common_ignore else []) + ([f'version={ver!r}'] if ver is not None else [])
+        shared_line = f'    _memo = cached({", ".join(a_)})\n'
+        methods = [dict(m, shared_deco=True, bare=False, version=ver, ignore=list(common_ignore)) for m in methods]
+        res.count('classes_with_one_decorator_object_for_several_methods')
+    src = 'class K:\n' + shared_line + '    def __init__(self, cache):\n        self.cache = cache\n' + ''.join(method_source(m) for m in methods)
     # second class: same method names but another version -> must not share entries when using the same own cache
-    methods_v = [dict(m, version=('9' if m['version'] != '9' else '8'), bare=False) for m in methods]
+    methods_v = [dict(m, version=('9' if m['version'] != '9' else '8'), bare=False, shared_deco=False) for m in methods]
     src += 'class KV:\n    def __init__(self, cache):\n        self.cache = cache\n' + ''.join(method_source(m) for m in methods_v)
     ns = {'cached': tcache.cached, '_exec': _exec}
     exec(src, ns)
